@@ -78,17 +78,80 @@ func c02IsNamed(t types.Type, path, name string) bool {
 	return ok && n.Obj().Pkg() != nil && n.Obj().Pkg().Path() == path && n.Obj().Name() == name
 }
 
-// c02Defs records, for every local variable of a function, how often it is (re)defined and
-// the right-hand side of the definition when it is a plain 1:1 assignment.
+// c02Defs records, for every local variable of a function (and of the same-package helpers it
+// reaches), how often it is (re)defined and the right-hand side of the definition when it is a
+// plain 1:1 assignment. Helpers with exactly one call site inside the covered functions have
+// their parameters and receiver bound to the operands of that call, so that `h(node)` with
+// `func h(n *FlowNode)` makes n a name for node; `x := h()` with a helper that always returns
+// the same local makes x a name for that local.
 type c02Defs struct {
 	f     *flow.Func
 	n     map[types.Object]int
 	rhs   map[types.Object]ast.Expr
 	taken map[types.Object]bool // address taken or assigned inside a closure
+	// tuple definitions `a, b := h(..)`: the call and the result index
+	rhsCall map[types.Object]*ast.CallExpr
+	rhsIdx  map[types.Object]int
+	funcs   []*flow.Func                 // covered functions, f first
+	site    map[*flow.Func]*ast.CallExpr // the single call site of a covered helper
+	siteFn  map[*flow.Func]*flow.Func    // the covered function containing that call site
+	byObj   map[types.Object]*flow.Func  // function object → covered function
+	parents map[*flow.Func]map[ast.Node]ast.Node
 }
 
-func c02NewDefs(f *flow.Func) *c02Defs {
-	d := &c02Defs{f: f, n: map[types.Object]int{}, rhs: map[types.Object]ast.Expr{}, taken: map[types.Object]bool{}}
+func c02NewDefs(f *flow.Func) *c02Defs { return c02ReachDefs(f, 0) }
+
+func c02FuncObj(g *flow.Func) types.Object {
+	if fd, ok := g.Node.(*ast.FuncDecl); ok {
+		return g.Info.Defs[fd.Name]
+	}
+	return nil
+}
+
+func c02ReachDefs(f *flow.Func, depth int) *c02Defs {
+	d := &c02Defs{f: f, n: map[types.Object]int{}, rhs: map[types.Object]ast.Expr{}, taken: map[types.Object]bool{},
+		rhsCall: map[types.Object]*ast.CallExpr{}, rhsIdx: map[types.Object]int{},
+		site: map[*flow.Func]*ast.CallExpr{}, siteFn: map[*flow.Func]*flow.Func{}, byObj: map[types.Object]*flow.Func{},
+		parents: map[*flow.Func]map[ast.Node]ast.Node{}}
+	d.funcs = []*flow.Func{f}
+	if depth > 0 {
+		d.funcs = reach(f, depth)
+	}
+	for _, g := range d.funcs {
+		if o := c02FuncObj(g); o != nil {
+			d.byObj[o] = g
+		}
+	}
+	// call sites of the covered helpers inside the covered functions
+	nsites := map[*flow.Func]int{}
+	for _, g := range d.funcs {
+		g := g
+		ast.Inspect(g.Body, func(n ast.Node) bool {
+			if call, ok := n.(*ast.CallExpr); ok {
+				if fo, ok := g.Callee(call).(*types.Func); ok {
+					if h := d.byObj[fo.Origin()]; h != nil && h != f {
+						nsites[h]++
+						d.site[h], d.siteFn[h] = call, g
+					}
+				}
+			}
+			return true
+		})
+	}
+	for h, k := range nsites {
+		if k != 1 {
+			delete(d.site, h)
+			delete(d.siteFn, h)
+		}
+	}
+	for _, g := range d.funcs {
+		d.addFunc(g)
+	}
+	return d
+}
+
+func (d *c02Defs) addFunc(g *flow.Func) {
+	f := d.f
 	obj := func(e ast.Expr) types.Object {
 		id, ok := ast.Unparen(e).(*ast.Ident)
 		if !ok || id.Name == "_" {
@@ -103,18 +166,50 @@ func c02NewDefs(f *flow.Func) *c02Defs {
 		if o := obj(l); o != nil {
 			d.n[o]++
 			d.rhs[o] = r
+			delete(d.rhsCall, o)
 		}
 	}
-	// parameters, results and the receiver are defined by the call
-	fields := []*ast.FieldList{f.Type.Params, f.Type.Results}
-	if fd, ok := f.Node.(*ast.FuncDecl); ok {
-		fields = append(fields, fd.Recv)
-	}
-	for _, fl := range fields {
-		if fl == nil {
-			continue
+	// parameters, results and the receiver are defined by the call; for a helper with a single
+	// covered call site they are names for the operands of that call
+	call := d.site[g]
+	if fd, ok := g.Node.(*ast.FuncDecl); ok && fd.Recv != nil {
+		for _, fld := range fd.Recv.List {
+			for _, id := range fld.Names {
+				var r ast.Expr
+				if call != nil {
+					if sel, ok := ast.Unparen(call.Fun).(*ast.SelectorExpr); ok {
+						if s := f.Info.Selections[sel]; s != nil && s.Kind() == types.MethodVal {
+							r = sel.X
+						}
+					}
+				}
+				def(id, r)
+			}
 		}
-		for _, fld := range fl.List {
+	}
+	if g.Type.Params != nil {
+		i := 0
+		variadic := false
+		if n := len(g.Type.Params.List); n > 0 {
+			_, variadic = g.Type.Params.List[n-1].Type.(*ast.Ellipsis)
+		}
+		for _, fld := range g.Type.Params.List {
+			if len(fld.Names) == 0 {
+				i++
+				continue
+			}
+			for _, id := range fld.Names {
+				var r ast.Expr
+				if call != nil && !variadic && i < len(call.Args) && !call.Ellipsis.IsValid() {
+					r = call.Args[i]
+				}
+				def(id, r)
+				i++
+			}
+		}
+	}
+	if g.Type.Results != nil {
+		for _, fld := range g.Type.Results.List {
 			for _, id := range fld.Names {
 				def(id, nil)
 			}
@@ -136,6 +231,13 @@ func c02NewDefs(f *flow.Func) *c02Defs {
 					r = s.Rhs[i]
 				}
 				def(l, r)
+				if r == nil && len(s.Rhs) == 1 && (s.Tok == token.ASSIGN || s.Tok == token.DEFINE) {
+					if c, ok := ast.Unparen(s.Rhs[0]).(*ast.CallExpr); ok {
+						if o := obj(l); o != nil {
+							d.rhsCall[o], d.rhsIdx[o] = c, i
+						}
+					}
+				}
 				if depth > 0 && s.Tok != token.DEFINE {
 					if o := obj(l); o != nil {
 						d.taken[o] = true
@@ -168,8 +270,230 @@ func c02NewDefs(f *flow.Func) *c02Defs {
 		}
 		return true
 	}
-	ast.Inspect(f.Body, visit)
-	return d
+	ast.Inspect(g.Body, visit)
+}
+
+// owner returns the covered function whose declaration spans node n.
+func (d *c02Defs) owner(n ast.Node) *flow.Func {
+	for _, g := range d.funcs {
+		if g.Node.Pos() <= n.Pos() && n.End() <= g.Node.End() {
+			return g
+		}
+	}
+	return nil
+}
+
+// parent returns the syntactic parent of n inside its covered function.
+func (d *c02Defs) parent(n ast.Node) ast.Node {
+	g := d.owner(n)
+	if g == nil {
+		return nil
+	}
+	pm := d.parents[g]
+	if pm == nil {
+		pm = parentMap(g.Body)
+		d.parents[g] = pm
+	}
+	return pm[n]
+}
+
+// lift maps a node of a covered helper to the call in d.f through which the helper is reached
+// (the node itself when it already belongs to d.f); nil if the chain of single call sites breaks.
+func (d *c02Defs) lift(n ast.Node) ast.Node {
+	for i := 0; i < 8; i++ {
+		g := d.owner(n)
+		if g == nil {
+			return nil
+		}
+		if g == d.f {
+			return n
+		}
+		call := d.site[g]
+		if call == nil {
+			return nil
+		}
+		n = call
+	}
+	return nil
+}
+
+// liftTo is lift with an arbitrary covered function as the target.
+func (d *c02Defs) liftTo(n ast.Node, target *flow.Func) ast.Node {
+	for i := 0; i < 8; i++ {
+		g := d.owner(n)
+		if g == nil {
+			return nil
+		}
+		if g == target {
+			return n
+		}
+		call := d.site[g]
+		if call == nil {
+			return nil
+		}
+		n = call
+	}
+	return nil
+}
+
+// inside visits the nodes executed inside region (a node of covered function lf): the nodes it
+// spans and the bodies of the covered helpers called from within it.
+func (d *c02Defs) inside(region ast.Node, lf *flow.Func, visit func(n ast.Node) bool) {
+	for _, g := range d.funcs {
+		g := g
+		ast.Inspect(g.Body, func(n ast.Node) bool {
+			if n == nil {
+				return true
+			}
+			up := d.liftTo(n, lf)
+			if up == nil {
+				return false // not reached from lf through single call sites
+			}
+			if !contains(region, up) {
+				return g == lf // keep descending towards the region in lf; skip helpers called elsewhere
+			}
+			return visit(n)
+		})
+	}
+}
+
+// canon is the outermost variable an expression names: aliases are resolved, and a helper's local
+// that is handed out by return is replaced by the caller's variable receiving it.
+func (d *c02Defs) canon(e ast.Expr) types.Object {
+	o := d.rootObj(e)
+	if o == nil {
+		return nil
+	}
+	oo, _ := d.outward(o, nil)
+	return oo
+}
+
+// canonObj is canon for a variable.
+func (d *c02Defs) canonObj(o types.Object) types.Object {
+	if o == nil {
+		return nil
+	}
+	oo, _ := d.outward(o, nil)
+	return oo
+}
+
+// returnsOf lists, for result index idx of covered helper h, the returned expressions (the named
+// result identifier for bare returns); ok=false if a return cannot be read.
+func (d *c02Defs) returnsOf(h *flow.Func, idx int) (out []ast.Expr, ok bool) {
+	var named []*ast.Ident
+	if h.Type.Results != nil {
+		for _, fld := range h.Type.Results.List {
+			for _, id := range fld.Names {
+				named = append(named, id)
+			}
+		}
+	}
+	ok = true
+	ast.Inspect(h.Body, func(n ast.Node) bool {
+		switch x := n.(type) {
+		case *ast.FuncLit:
+			return false
+		case *ast.ReturnStmt:
+			switch {
+			case idx < len(x.Results):
+				out = append(out, x.Results[idx])
+			case len(x.Results) == 0 && idx < len(named):
+				out = append(out, named[idx])
+			default:
+				ok = false
+			}
+		}
+		return true
+	})
+	return out, ok && len(out) > 0
+}
+
+// callee returns the covered helper a call invokes (nil if none).
+func (d *c02Defs) calleeOf(call *ast.CallExpr) *flow.Func {
+	if fo, ok := d.f.Callee(call).(*types.Func); ok {
+		if h := d.byObj[fo.Origin()]; h != nil && h != d.f {
+			return h
+		}
+	}
+	return nil
+}
+
+// outward follows a helper-local variable to the variable of the calling function that receives
+// it: `func h() T { v := ..; return v }` with `x := h()` maps v to x (repeatedly). The variable
+// itself is returned when it is not handed out.
+func (d *c02Defs) outward(o types.Object, id *ast.Ident) (types.Object, *ast.Ident) {
+	for i := 0; i < 6 && o != nil; i++ {
+		var h *flow.Func
+		for _, g := range d.funcs {
+			if g != d.f && g.Node.Pos() <= o.Pos() && o.Pos() <= g.Node.End() {
+				h = g
+			}
+		}
+		if h == nil || d.site[h] == nil {
+			return o, id
+		}
+		as, ok := d.parent(d.site[h]).(*ast.AssignStmt)
+		if !ok || len(as.Rhs) != 1 {
+			return o, id
+		}
+		sig, _ := c02FuncObj(h).Type().(*types.Signature)
+		if sig == nil || sig.Results().Len() != len(as.Lhs) {
+			return o, id
+		}
+		moved := false
+		for k := range as.Lhs {
+			rets, ok := d.returnsOf(h, k)
+			if !ok {
+				continue
+			}
+			for _, r := range rets {
+				if c02Obj(d.f, r) == o {
+					if lo := c02Obj(d.f, as.Lhs[k]); lo != nil {
+						o, id = lo, ast.Unparen(as.Lhs[k]).(*ast.Ident)
+						moved = true
+					}
+					break
+				}
+			}
+			if moved {
+				break
+			}
+		}
+		if !moved {
+			return o, id
+		}
+	}
+	return o, id
+}
+
+// rootObj is the variable an expression names after alias resolution (nil if not a variable).
+func (d *c02Defs) rootObj(e ast.Expr) types.Object {
+	// follow the alias chain as long as it leads from one variable to another; a variable defined
+	// by a non-variable expression (x := m[k]) is its own root
+	var last types.Object
+	for i := 0; i < 8; i++ {
+		o := c02Obj(d.f, e)
+		if o == nil {
+			return last
+		}
+		last = o
+		id := ast.Unparen(e).(*ast.Ident)
+		next := d.aliasStep(id)
+		if next == nil {
+			return last
+		}
+		e = next
+	}
+	return last
+}
+
+// aliasStep is one step of alias: the expression the single-definition variable id names, or nil.
+func (d *c02Defs) aliasStep(id *ast.Ident) ast.Expr {
+	one := d.alias1(id)
+	if one == ast.Expr(id) {
+		return nil
+	}
+	return one
 }
 
 // alias follows single-definition locals: `x := e` (defined once, never reassigned, address
@@ -181,16 +505,58 @@ func (d *c02Defs) alias(e ast.Expr) ast.Expr {
 		if !ok {
 			return e
 		}
-		o := d.f.Info.Uses[id]
-		if o == nil {
-			o = d.f.Info.Defs[id]
-		}
-		if o == nil || d.n[o] != 1 || d.rhs[o] == nil || d.taken[o] {
+		next := d.alias1(id)
+		if next == ast.Expr(id) {
 			return e
 		}
-		e = d.rhs[o]
+		e = next
 	}
 	return e
+}
+
+// alias1 is one step of alias: what the single-definition variable id names (id itself if nothing).
+func (d *c02Defs) alias1(id *ast.Ident) ast.Expr {
+	var e ast.Expr = id
+	o := d.f.Info.Uses[id]
+	if o == nil {
+		o = d.f.Info.Defs[id]
+	}
+	if o == nil || d.n[o] != 1 || d.taken[o] {
+		return e
+	}
+	r := d.rhs[o]
+	idx := 0
+	if r == nil && d.rhsCall[o] != nil {
+		r, idx = d.rhsCall[o], d.rhsIdx[o]
+	}
+	if r == nil {
+		return e
+	}
+	// x := h(..) where the covered helper h always returns the same local: x names it
+	if call, ok := ast.Unparen(r).(*ast.CallExpr); ok {
+		if h := d.calleeOf(call); h != nil {
+			if rets, ok := d.returnsOf(h, idx); ok {
+				var same types.Object
+				var first ast.Expr
+				all := true
+				for _, x := range rets {
+					ro := c02Obj(d.f, x)
+					if ro == nil || (same != nil && ro != same) {
+						all = false
+						break
+					}
+					same, first = ro, x
+				}
+				if all && same != nil {
+					return first
+				}
+			}
+		}
+		if d.rhs[o] == nil {
+			return e
+		}
+	}
+	return r
 }
 
 // norm renders an expression with single-definition locals substituted and & * () dropped,
